@@ -57,6 +57,15 @@ P_C03(pre, e) ==
     /\ Ck("C03", "OneInFlight", \A o \in DOMAIN post.ord : InFlightCount(post, o) <= 1, {o \in DOMAIN post.ord : InFlightCount(post, o) > 1})
     /\ Ck("C03", "InFlightStatusWhileOutstanding", InFlightWrong(post) = {}, InFlightWrong(post))
     /\ (e.ev \in {"resp", "nobuild"} => Ck("C03", "NoEscapingException", e.a.err = "", e.a.err))
+    \* each report of an answer is applied to the order it belongs to: rejected / unanswered -> back to EXECUTABLE (a
+    \* failed placement: complete), accepted update -> stays UPDATING until the poll confirms it, cancel reported ->
+    \* complete; an order that completed meanwhile stays complete
+    /\ ((e.ev = "resp" /\ pre.wire # <<>>) =>
+          LET want == StepResp(PState(pre), Ev(e)) IN
+          \A i \in DOMAIN pre.wire[1].orders :
+             LET o == pre.wire[1].orders[i] IN
+             Ck("C03", "ResponseToOwner", want.ord[o].status = post.ord[o].status,
+                <<pre.wire[1].kind, o, "code", pre.wire[1].codes[o], "before", pre.ord[o].status, "expected", want.ord[o].status, "got", post.ord[o].status>>))
 
 \* C15 on the BETDAQ path: the live list holds every order that is not complete, loses an order only once it is
 \* complete, and every placed order is in the blotter of its market (the very object: recorded as `inbl`)
